@@ -17,7 +17,9 @@ os.makedirs("/tmp/matrix", exist_ok=True)
 V = "/tmp/matrix/verif-snap" + a.snap
 subprocess.run(["git", "-C", "/verif", "worktree", "remove", "--force", V], capture_output=True)
 subprocess.run(["git", "-C", "/verif", "worktree", "add", "--detach", V, "HEAD"], check=True, capture_output=True)
-ids = sorted(os.listdir(V + "/seeded")) if a.ids == ["all"] else a.ids
+ids = a.ids
+if a.ids == ["all"]:      # changes recorded as outside the contract boundary are not detection targets
+    ids = [m for m in sorted(os.listdir(V + "/seeded")) if not json.load(open(os.path.join(V, "seeded", m, "meta.json"))).get("out_of_contract")]
 
 def run(mid):
     d = os.path.join(V, "seeded", mid)
